@@ -23,7 +23,17 @@ must be those of the graph as it is at the time of each query, whatever was aske
   * addition of a segment, dovetail, containment or internal alignment by Gfa.add_line(text) or by
     gfapy.Line(text).connect(gfa); also a dovetail to a segment that is defined only by the NEXT step (the S line
     arrives after the edge, on the from or the to side, same or opposite orientations);
-  * renaming of a segment;
+  * renaming of a segment to a new name, and ASSIGNING A SEGMENT THE NAME IT ALREADY HAS (an identity entry of a
+    renaming table), by any of the routes s.name = v / s.set("name", v) / s.sid = v / s.set("sid", v); a
+    `normalise` step is a clean-up pass which assigns f(name) to EVERY segment of the graph (f = identity, lower
+    case, upper case, or a prefix for names not starting with a letter), so that most or all segments are given
+    their own name and a few a new one.  Assigning names adds and removes no record and no segment end:
+    immediately after such a step the library must give the classes and the four counts of the text BEFORE the
+    step with the names mapped (`components-wrong-after-rename`, `segment-component-raises/wrong-after-rename`
+    for the renamed segments by name and by instance, `n_*-wrong-after-rename`), the segment names of the Gfa are
+    the mapped names and Gfa.segment(new name) is the very segment that was named (`rename-loses-segment`) - a
+    segment which silently dropped out of the Gfa would otherwise also vanish from the text the later queries are
+    compared with;
   * graph operations which edit the graph themselves: multiply(segment, 2..3), remove_self_links(),
     remove_dead_ends(minlen), merge_linear_paths();
   * `query` steps between the changes (always one before the first change, then before each later change with
@@ -50,7 +60,9 @@ RULE = ("random assembly-like graphs (_graphgen.gen_graph, GFA1/GFA2, isolated s
         "30% with the lines in another arrival order (S lines after the edges/paths that mention them), "
         "70% followed by 1-5 mutation steps (rm segment / rm edge by Gfa.rm or line.disconnect, add "
         "segment/dovetail/containment/internal by add_line or Line.connect, a dovetail followed by the S line of its "
-        "new segment, rename, multiply, remove_self_links, "
+        "new segment, rename to a new name or to the own name by name=/set/sid=, normalise = f(name) assigned to every "
+        "segment with f mostly the identity - classes, counts and segments right after it are those of the text "
+        "before it with the names mapped -, multiply, remove_self_links, "
         "remove_dead_ends, merge_linear_paths) interleaved with query steps whose answers "
         "are compared with the text of that moment (names and identity of the members), then one "
         "remove_small_components threshold. Non-trivial: at least "
@@ -233,6 +245,12 @@ def tags(case):
             t.append("route-" + h[2])
         if h[0] == "add" and len(h) > 2:
             t.append("route-" + h[2])
+        if h[0] == "rename":
+            t.append("rename-to-own-name" if h[1] == h[2] else "rename-to-new-name")
+            t.append("route-name-" + (h[3] if len(h) > 3 else "attr"))
+        if h[0] == "normalise":
+            t.append("normalise-" + h[1])
+            t.append("route-name-" + h[2])
     return sorted(set(t))
 
 
@@ -347,17 +365,6 @@ def _rename_failures(g, d0, made, h):
     F = []
     m = dict((a, b) for _, a, b in made)
     what = "after %r = %s" % (h, ", ".join("%s->%s" % (a, b) for _, a, b in made[:12]))
-    want_names = sorted(m.get(n, n) for n in d0.segs)
-    r = lib.outcome(lambda: sorted(str(n) for n in g.segment_names))
-    if r != ("ok", want_names):
-        F.append("rename-loses-segment: %s the segments of the Gfa are %r, expected %r" % (what, r[1], want_names))
-    lost = []
-    for s, a, b in made:
-        r = lib.outcome(g.segment, b)
-        if r[0] != "ok" or r[1] is not s:
-            lost.append(b)
-    if lost:
-        F.append("rename-loses-segment: %s Gfa.segment(name) is not the segment which was given the name, for %r" % (what, lost))
     want = set(frozenset(m.get(n, n) for n in c) for c in G.components(d0))
     r = lib.outcome(lambda: [names_of(c) for c in g.connected_components()])
     if r[0] != "ok":
@@ -383,6 +390,17 @@ def _rename_failures(g, d0, made, h):
             F.append("%s-raises-after-rename: %s %s %s" % (attr, what, r[0], r[1]))
         elif r[1] != val:
             F.append("%s-wrong-after-rename: %s library %r, records and segment ends of the text before the step %d" % (attr, what, r[1], val))
+    want_names = sorted(m.get(n, n) for n in d0.segs)
+    r = lib.outcome(lambda: sorted(str(n) for n in g.segment_names))
+    if r != ("ok", want_names):
+        F.append("rename-loses-segment: %s the segments of the Gfa are %r, expected %r" % (what, r[1], want_names))
+    lost = []
+    for s, a, b in made:
+        r = lib.outcome(g.segment, b)
+        if r[0] != "ok" or r[1] is not s:
+            lost.append(b)
+    if lost:
+        F.append("rename-loses-segment: %s Gfa.segment(name) is not the segment which was given the name, for %r" % (what, lost))
     return F
 
 
